@@ -129,6 +129,9 @@ func WorkerPool.dispatcher
   requires unlocked(w.mutex)
   modifies chans, ghost(lastrun), ghost(lastsize)
   loop 1 invariant unlocked(w.mutex) && !closed(w.dispatcherChan)
+  -- the dispatcher waits for work only as long as the pool is running: its wait condition is IsRunning itself - a wider one
+  -- ("or tasks are pending") sends it back to sleep after Shutdown with nobody left to wake it
+  ghost before call Stack.PopOrWait: assert isfunc(arg1, WorkerPool.IsRunning)
   ghost after call WorkerPool.IsRunning: lastrun = result
   ghost after call Stack.Size: lastsize = result
   ghost before call Counter.WaitIsZero: assert !lastrun && lastsize == 0
